@@ -43,8 +43,8 @@ type VerifAdapterCfg struct {
 type VerifAdapterResult struct {
 	Reported    bool // a TransferResult arrived
 	Err         string
-	Retriable   bool // errors.IsRetriableError
-	RetryLater  bool // errors.IsRetriableLaterError
+	Retriable   bool    // errors.IsRetriableError
+	RetryLater  bool    // errors.IsRetriableLaterError
 	RetryAfterS float64 // indicated instant minus the (virtual) instant the attempt started, in seconds
 	RetryAtUnix int64
 	StartUnix   int64
